@@ -11,14 +11,14 @@ SPEC = dict(
          "shard under another name = renamed repository), 0-2 compound shards (index.Merge, 1-3 repositories, 35% tombstoned via "
          "index.SetTombstone, overlapping with simple shards, occasionally renamed), trash with 1-2 shards per repository, mtimes "
          "from {now-100000, now-86401, now-86400, now-86399, now-3600, now-60, now, now+3600}, 0-2 *.tmp files, an unrelated "
-         "file; random assigned subset in random order; shardMerging 65%; the real cleanup() is run twice and the directory "
+         "file; random assigned subset in random order (6% of the cases with one id twice); shardMerging 65%; the real cleanup() is run twice and the directory "
          "(files, mtimes, per-shard repository metadata incl. tombstones) observed before / after / after the second run. "
          "non-trivial = >= 2 index shards, trash or compound shards present, and the first cleanup changed something.",
     trusted_base=["correspondence harness harness/overlay/cmd/zoekt-sourcegraph-indexserver/zz_verif_c32_test.go (generator, canonicalisation, Go oracle)",
                   "abstraction: shard + .meta sidecar as one unit carrying (id, name, tombstone, latest commit date) per repository; base names ordered like file names",
                   "Go map iteration order modelled as first-appearance order (result observed to be order-independent on all generated inputs)",
                   "file-system failures (rename/remove/chtimes errors, unreadable shards) are not modelled: moveAll's failure fallback is outside the theorems"],
-    assumptions=["no file-system errors during cleanup", "the assigned list has no duplicates",
+    assumptions=["no file-system errors during cleanup", "the assigned list has no duplicates (restore theorem only; the model and the correspondence cover duplicates)",
                  "well-formed directory (unique base names per directory, trashed shards hold one repository)"],
 )
 
